@@ -150,9 +150,17 @@ func (c *StringScanner) Unread() {
 	// Update the current position
 	c.position--
 
+	// Unreading the end-of-input slot does not change line and column
+	if c.position+1 >= len(c.content) {
+		return
+	}
+
 	// Update line and columns (optimization)
 	if c.column > 0 {
-		c.column--
+		// CR that precedes LF is neither a line break nor a column
+		if c.isColumn(c.charAt(c.position + 1)) {
+			c.column--
+		}
 		return
 	}
 
